@@ -120,7 +120,10 @@ def replay_once(binp, lines, scratch, want_props):
     os.makedirs(d)
     pf = os.path.join(d, "p.prog")
     open(pf, "w").write("\n".join(lines) + "\n")
-    rc, o, dt = run([binp, "replay", pf, os.path.join(d, "out")], env=ENV, timeout=300)
+    env = dict(ENV)
+    if "C16" in want_props:
+        env["VERIF_BOTH_BACKENDS"] = "1"
+    rc, o, dt = run([binp, "replay", pf, os.path.join(d, "out")], env=env, timeout=300)
     if rc != 0:
         return set(), False, None
     r = analyse(os.path.join(d, "out"))
@@ -382,3 +385,19 @@ def check_c17(ctx):
                  ENGINE_ASSUME + ["the persister thread is held by hook H3 and released only by the `persist` operation: every delay between the last "
                                   "call and the shutdown is represented by 'persister ran' / 'persister did not run'",
                                   "clean shutdown = the instance is dropped before the process ends (a killed process is C07/C09's crash model)"])
+
+
+def check_c16(ctx):
+    mods = ["WalrusVerif.Props.C16"]
+    if ctx.replay:
+        do_replay(ctx, mods, ["C16"])
+    engine_check(ctx, mods,
+                 [("backends", 250, 4000)],
+                 ["C16"],
+                 "every generated program is executed twice, once with the FD backend (io_uring batch writes/reads, pread/pwrite) and once with the mmap "
+                 "backend, each in its own processes: appends, batches (1-6 entries, rotating blocks, multi-unit), rejected operations (long topic name, "
+                 "over-cap, over-size, empty, > MAX_ALLOC), both read APIs, peeks, offset reads, clean reopen and process restarts; oracle: the two "
+                 "output streams are equal line by line; each stream is also compared with the (backend-independent) model; non-trivial as for C01",
+                 ENGINE_ASSUME + ["kernel behaviour (pread/mmap coherence, io_uring completion order) is exercised, not modelled: the model has one write path; "
+                                  "C16_completion_order_irrelevant covers the one place where the FD path is allowed to differ (completion order of a batch)"],
+                 real_profiles=[("backends", 6, 60)])
